@@ -686,7 +686,42 @@ def c12_16(ctx):
     return out
 
 
+def c12_17(ctx):
+    """a control block is 33 + 32*m bytes with 0 <= m <= 128 and nothing else: ControlBlock.parse evaluated for *every* length 0..300 and around
+    the upper bound (33 + 32*128 and its neighbours); a parsed block must carry exactly m path hashes, in order"""
+    from sa.cells import ClassRef, Evaluator, Obj, Raised, Undecided
+    spec = "taproot:ControlBlock.parse"
+    mod, fn = rl.get(ctx, spec)
+    hooks = {("S256Point", "parse_xonly"): lambda cls, b, *a, **k_: Obj("pecc", "S256Point", {"xo": b}), ("S256Point", "parse"): lambda cls, b, *a, **k_: Obj("pecc", "S256Point", {"xo": b}),
+             ("ControlBlock", "__init__"): lambda o, v=None, par=None, ipk=None, hashes=None, *a, **k_: o.attrs.update({"v": v, "parity": par, "ipk": ipk, "hashes": hashes})}
+    top = 33 + 32 * 128
+    try:
+        for L in list(range(0, 301)) + [top - 32, top - 1, top, top + 1, top + 31, top + 32, top + 64]:
+            ctx.count("cells")
+            data = bytes([0xC1]) + bytes((7 * i + 1) & 0xFF for i in range(max(L - 1, 0))) if L else b""
+            want = L >= 33 and (L - 33) % 32 == 0 and (L - 33) // 32 <= 128
+            try:
+                r = Evaluator(ctx.repo, method_hooks=hooks, max_steps=400000).call(spec, [data], self_obj=ClassRef("taproot", "ControlBlock"))
+                ok = True
+            except Raised:
+                ok, r = False, None
+            if ok != want:
+                return [ctx.bad(spec, "a control block of %d bytes is %s; BIP341: the length is 33 + 32*m with 0 <= m <= 128 -- %s" % (
+                    L, "accepted" if ok else "refused", "trailing bytes that belong to no path hash are ignored, so a malformed control block verifies" if ok else
+                    "a valid script path cannot be spent"), fn, mod, key="cb-length")]
+            if ok:
+                hs = r.attrs.get("hashes") if isinstance(r, Obj) else None
+                m_ = (L - 33) // 32
+                if not isinstance(hs, list) or hs != [data[33 + 32 * i:65 + 32 * i] for i in range(m_)] or r.attrs.get("v") != 0xC0 or r.attrs.get("parity") != 1:
+                    return [ctx.bad(spec, "a control block of %d bytes parses to %s path hashes / leaf version %r / parity %r; expected %d hashes in order, c0, 1" % (
+                        L, len(hs) if isinstance(hs, list) else hs, r.attrs.get("v"), r.attrs.get("parity"), m_), fn, mod, key="cb-length")]
+    except Undecided as u:
+        return [ctx.err(spec, "ControlBlock.parse not evaluable: %s" % u, fn, mod)]
+    return [ctx.ok(spec, "accepted lengths are exactly 33 + 32*m, 0 <= m <= 128 (every length 0..300 and the upper bound), with m path hashes in order", fn, mod, key="cb-length")]
+
+
 OBLIGATIONS = [
+    ("C12.17", "CELLS control block length", c12_17),
     ("C12.15", "RANGE partition (shared C04.1)", c12_15),
     ("C12.16", "CELLS control block", c12_16),
     ("C12.14", "SHARED", c12_14),
